@@ -173,7 +173,32 @@ let rec i64_of_pos = function
 let string_of_z64 = function
   | Z0 -> "0" | Zpos p -> Int64.to_string (i64_of_pos p) | Zneg p -> Int64.to_string (Int64.neg (i64_of_pos p))
 (*CONV*)
-let conv_handle cmd args got : string option = None
+(* rows: X ntags nrefl {N<minwidth> | T<hex text>}* H <hex loop body> *)
+let conv_handle cmd args got : string option =
+  match cmd with
+  | "rows" ->
+    (match words got with
+     | "X" :: nt :: nr :: rest ->
+       let nt = int_of_string nt and nr = int_of_string nr in
+       let rec take_items n acc l = if n = 0 then (List.rev acc, l) else
+         match l with
+         | x :: t ->
+           let it = if x.[0] = 'N' then INan (nat_of_int (int_of_string (String.sub x 1 (String.length x - 1))))
+                    else INum (s2l (hex_decode (String.sub x 1 (String.length x - 1)))) in
+           take_items (n - 1) (it :: acc) t
+         | [] -> failwith "items" in
+       let (items, tl) = take_items (nt * nr) [] rest in
+       let rec rows_of l = if l = [] then [] else
+         let rec sp n acc l = if n = 0 then (List.rev acc, l) else
+           (match l with x :: t -> sp (n - 1) (x :: acc) t | [] -> failwith "row") in
+         let (r, t) = sp nt [] l in r :: rows_of t in
+       let rows = rows_of items in
+       let xs = String.concat " " (List.filteri (fun i _ -> i < 3 + nt * nr) (words got)) in
+       (match loop_body put_item rows with
+        | None -> Some "MODEL: store outside buf[256]"
+        | Some out -> Some (xs ^ " H " ^ hexl out))
+     | _ -> if got = "EXC" then None else Some "X ...")
+  | _ -> None
 (*/CONV*)
 let handle cmd args got : string option =
   match cmd with
